@@ -210,11 +210,113 @@ def include_docs(ctx, res):
                             "a document load rejected the value of a declared field with %s, not ValidationError" % type(e).__name__, case)
 
 
+def container_path_stream(ctx, res, n):
+    """rejections inside containers the history stream does not reach: an entry of a typed dict that came from the field's default
+    (in a list item, in a config-type sub-configuration, in a config type appended later), a ready-made configuration object that
+    fails validation when it is put into a list, and dict keys that are tuples. Each must be a ValidationError naming the full path."""
+    import cincoconfig as cc
+    from cincoconfig.core import ValidationError
+    rng = ctx.rng
+    for i in range(n):
+        depth = rng.randint(0, 2)
+        srv = cc.Schema()
+        srv.name = cc.StringField()
+        srv.limits = cc.DictField(cc.StringField(), cc.IntField(), default=dict)
+        srv.net.host = cc.StringField(required=True)
+        qs = cc.Schema()
+        qs.limits = cc.DictField(cc.StringField(), cc.IntField(), default=dict)
+        Quota = cc.make_type(qs, "Quota%d" % i)
+        s = cc.Schema()
+        holder, prefix = s, []
+        for lvl in range(depth):
+            holder = getattr(holder, "lvl%d" % lvl)
+            prefix.append("lvl%d" % lvl)
+        holder.servers = cc.ListField(srv, default=lambda: [])
+        holder.quota = Quota
+        holder.quotas = cc.ListField(Quota, default=lambda: [])
+        holder.cells = cc.DictField(None, cc.IntField(), default=dict)
+        holder.named = cc.DictField(cc.StringField(), cc.IntField(), default=dict)
+        c = s()
+        h = c
+        for p in prefix:
+            h = h[p]
+        nsrv = rng.randint(1, 3)
+        h.servers = [{"name": "s%d" % j, "net": {"host": "h"}} for j in range(nsrv)]
+        pre = ".".join(prefix) + ("." if prefix else "")
+        what = rng.choice(["item-default-dict", "ctype-default-dict", "appended-ctype-dict", "cfg-object-append", "cfg-object-assign", "tuple-key", "tuple-key-load"])
+        key = rng.choice(["cpu", "mem"])
+        how = rng.choice(["set", "update", "ior", "setdefault"])
+
+        def put(d, k, v):
+            if how == "set":
+                d[k] = v
+            elif how == "update":
+                d.update({k: v})
+            elif how == "ior":
+                d |= {k: v}
+            else:
+                d.setdefault(k, v)
+        want = None
+        try:
+            if what == "item-default-dict":
+                j = rng.randrange(nsrv)
+                want = "%sservers[%d].limits[%s]" % (pre, j, key)
+                put(h.servers[j].limits, key, "lots")
+            elif what == "ctype-default-dict":
+                want = "%squota.limits[%s]" % (pre, key)
+                put(h.quota.limits, key, "lots")
+            elif what == "appended-ctype-dict":
+                q = Quota()
+                for _ in range(rng.randint(0, 2)):
+                    h.quotas.append(Quota())
+                h.quotas.append(q)
+                want = "%squotas[%d].limits[%s]" % (pre, len(h.quotas) - 1, key)
+                put(q.limits, key, "lots")
+            elif what == "cfg-object-append":
+                bad = srv()
+                bad.name = "x"                          # net.host, required, is left unset
+                want = "%sservers[%d].net.host" % (pre, nsrv)
+                h.servers.append(bad)
+            elif what == "cfg-object-assign":
+                bad = srv()
+                items = [h.servers[0], bad] if rng.random() < 0.5 else [bad]
+                want = "%sservers[%d].net.host" % (pre, len(items) - 1)
+                if rng.random() < 0.5:
+                    h.servers = items
+                else:
+                    c[pre + "servers"] = items
+            elif what == "tuple-key":
+                tk = rng.choice([(1, 2), (), (7,), ("a", 1, None)])
+                want = "%scells[%s]" % (pre, tk)
+                put(h.cells, tk, "x") if how != "update" or True else None
+            else:
+                tk = rng.choice([(1, 2), (5, 6, 7)])
+                want = "%scells[%s]" % (pre, tk)
+                t = {"cells": {tk: "x"}}
+                for p in reversed(prefix):
+                    t = {p: t}
+                c.load_tree(t)
+            got = ("accepted", None)
+        except ValidationError as e:
+            got = ("ValidationError", e.ref_path)
+        except Exception as e:  # noqa
+            got = (type(e).__name__, None)
+        case = {"stream": "container-path", "what": what, "how": how, "depth": depth, "want": want}
+        res.case(stable([what, how, depth, want]), sample=case if i < 2 else None, kind="container-path:" + what)
+        if got[0] == "accepted":
+            res.violate("C15:accepted", "a value its field rejects was accepted", case)
+        elif got[0] != "ValidationError":
+            res.violate("C15:not-validation-error:" + what, "a rejection surfaced as %s, not as the library's validation error" % got[0], case)
+        elif got[1] != want:
+            res.violate("C15:wrong-path:" + what, "the validation error does not name the full path of the offending field", dict(case, got=got[1]))
+
+
 def run(ctx, n_quick=250, n_thorough=8000):
     res = Result()
     P.run_stream(ctx, res, "C15", ctx.n(n_quick, n_thorough), oracle, gen_ops=gen_ops, ops_len=(8, 20))
     doc_stream(ctx, res, ctx.n(40, 1500))
     include_docs(ctx, res)
+    container_path_stream(ctx, res, ctx.n(150, 4000))
     return res
 
 
